@@ -892,3 +892,45 @@ def eigh_reconstruction_errors(fn_node: ast.FunctionDef):
         if not any(n is not m and any(n is y for y in ast.walk(m)) for (m, _) in out):
             uniq.append((n, why))
     return uniq
+
+
+_NARROW = ("float32", "float16", "half", "single", "bfloat16", "'f4'", "'f2'", "'float32'", "'float16'", "'<f4'", "'e'")
+
+
+def precision_downgrades(fn_node: ast.AST):
+    """Casts to / allocations in a floating type narrower than double inside a numerical routine:
+    `x.astype(np.float32)`, `dtype=np.float32`, `np.float32(x)`, a name bound to such a type and used as a dtype.
+    Returns [(node, text of the narrow type)]."""
+    out = []
+    narrow_names = set()
+    for x in ast.walk(fn_node):
+        if isinstance(x, ast.Assign) and len(x.targets) == 1 and isinstance(x.targets[0], ast.Name):
+            txt = ast.unparse(x.value)
+            if any(t in txt for t in _NARROW):
+                narrow_names.add(x.targets[0].id)
+
+    def narrow(e) -> Optional[str]:
+        txt = ast.unparse(e)
+        for t in _NARROW:
+            if t in txt:
+                return t
+        if isinstance(e, ast.Name) and e.id in narrow_names:
+            return e.id + " (bound to a narrow type)"
+        return None
+
+    for c in ast.walk(fn_node):
+        if not isinstance(c, ast.Call):
+            continue
+        nm = dotted_name(c.func).split(".")[-1]
+        if nm == "astype" and c.args:
+            t = narrow(c.args[0])
+            if t:
+                out.append((c, t))
+        for k in c.keywords:
+            if k.arg == "dtype":
+                t = narrow(k.value)
+                if t:
+                    out.append((c, t))
+        if nm in ("float32", "float16", "half", "single") and c.args:
+            out.append((c, nm))
+    return out
